@@ -4,7 +4,6 @@ import (
 	"bytes"
 	"fmt"
 	"math/rand"
-	"sort"
 	"strings"
 	"sync"
 	"time"
@@ -661,14 +660,4 @@ func (s *state) stopAndCheckDB(when string) bool {
 	s.inDB = inDB
 	res.Count("db_entries_verified", n)
 	return true
-}
-
-// SortedKeys is a small helper for deterministic output.
-func SortedKeys(m map[string]int) []string {
-	out := make([]string, 0, len(m))
-	for k := range m {
-		out = append(out, k)
-	}
-	sort.Strings(out)
-	return out
 }
